@@ -89,7 +89,7 @@ func (t *c13Thread) run() {
 				d, f := model.Counts(r, []string{"b"})
 				want += model.RenderRoot(r, model.DefaultFmt) + fmt.Sprintf("\n%d directories, %d files\n", d, f)
 			}
-			obs(fmt.Sprintf("%q %v", buf.String(), err), fmt.Sprintf("%q <nil>", want))
+			obs(fmt.Sprintf("%q %v", model.NormSummary(buf.String()), err), fmt.Sprintf("%q <nil>", model.NormSummary(want)))
 		case "X":
 			var rows []string
 			err := gtree.WalkFromMarkdown(strings.NewReader(s.Doc), func(wn *gtree.WalkerNode) error { rows = append(rows, wn.Row()); return nil })
